@@ -982,6 +982,12 @@ func c22RunDeliveryJob(t *testing.T, j c22Job) (*c22Result, error) {
 			byID[p.ID] = append(byID[p.ID], p)
 		}
 		var outcome []string
+		totalHangs := 0 // publishes of this run that never returned (each blocks one dispatcher goroutine for good)
+		for _, p := range sys.log {
+			if p.Answer == "hang" {
+				totalHangs++
+			}
+		}
 		for id, r := range seen {
 			pubs := byID[id]
 			oks, fails, hangs := 0, 0, 0
@@ -1008,7 +1014,7 @@ func c22RunDeliveryJob(t *testing.T, j c22Job) (*c22Result, error) {
 					res.Outcomes["delivered-and-dead-lettered"]++
 				}
 				outcome = append(outcome, "dead-lettered")
-			case still && hangs >= c22Dispatchers(sc, d):
+			case still && totalHangs >= c22Dispatchers(sc, d):
 				// every dispatcher goroutine is blocked in a publish that never returns: nobody is left to deliver
 				outcome = append(outcome, "stuck-no-live-dispatcher")
 			case still:
